@@ -347,3 +347,5 @@ def summarize(results, tier):
         "samples": samples[:4],
         "exhaustive": True,
     }
+
+RULE += " Session 4: members whose key names merely begin with another member's key; an un-annotated evaluatable parent member replaced by an un-annotated constant in the child."
